@@ -23,6 +23,101 @@ func init() {
 	verifrt.Register("Harness_C15_QueriesWriteNothing", Harness_C15_QueriesWriteNothing)
 	verifrt.Register("Harness_C07_NonceQuery", Harness_C07_NonceQuery)
 	verifrt.Register("Harness_C02_UsedNonceQuery", Harness_C02_UsedNonceQuery)
+	verifrt.Register("Harness_C19_ListQueriesReturnStoredValues", Harness_C19_ListQueriesReturnStoredValues)
+}
+
+// each list query over a registry holding two arbitrary entries returns exactly those two values
+// (set equality, field by field), whichever order the keys sort in
+func Harness_C19_ListQueriesReturnStoredValues() {
+	h := newH("")
+	h.setupRolesFixed()
+	h.setupScalars()
+	ctx := h.Env.Ctx
+	which := verifrt.NondetChoice("which", 5)
+	pr := &query.PageRequest{Limit: 2 + verifrt.NondetU64("q_extra_limit")%3}
+	switch which {
+	case 0:
+		d0, n0 := verifrt.NondetU32("d0"), verifrt.NondetU64("n0")
+		d1, n1 := verifrt.NondetU32("d1"), verifrt.NondetU64("n1")
+		verifrt.Assume(verifrt.Any(d0 != d1, n0 != n1))
+		h.K.SetUsedNonce(ctx, types.Nonce{SourceDomain: d0, Nonce: n0})
+		h.K.SetUsedNonce(ctx, types.Nonce{SourceDomain: d1, Nonce: n1})
+		r, err := h.K.UsedNonces(ctx, &types.QueryAllUsedNoncesRequest{Pagination: pr})
+		verifrt.Assert("C19/list/used-nonces-answer", verifrt.All(err == nil, r != nil))
+		if err == nil && r != nil {
+			a, b := false, false
+			for _, x := range r.UsedNonces {
+				a = verifrt.Any(a, verifrt.All(x.SourceDomain == d0, x.Nonce == n0))
+				b = verifrt.Any(b, verifrt.All(x.SourceDomain == d1, x.Nonce == n1))
+			}
+			verifrt.Assert("C19/list/used-nonces-exact", verifrt.All(len(r.UsedNonces) == 2, a, b))
+		}
+	case 1:
+		d0, d1 := verifrt.NondetU32("d0"), verifrt.NondetU32("d1")
+		a0, a1 := verifrt.NondetBytes("a0", 32), verifrt.NondetBytes("a1", 32)
+		verifrt.Assume(verifrt.All(d0 != d1, len(a0) == 32, len(a1) == 32))
+		h.K.SetRemoteTokenMessenger(ctx, types.RemoteTokenMessenger{DomainId: d0, Address: a0})
+		h.K.SetRemoteTokenMessenger(ctx, types.RemoteTokenMessenger{DomainId: d1, Address: a1})
+		r, err := h.K.RemoteTokenMessengers(ctx, &types.QueryRemoteTokenMessengersRequest{Pagination: pr})
+		verifrt.Assert("C19/list/messengers-answer", verifrt.All(err == nil, r != nil))
+		if err == nil && r != nil {
+			a, b := false, false
+			for _, x := range r.RemoteTokenMessengers {
+				a = verifrt.Any(a, verifrt.All(x.DomainId == d0, bytes.Equal(x.Address, a0)))
+				b = verifrt.Any(b, verifrt.All(x.DomainId == d1, bytes.Equal(x.Address, a1)))
+			}
+			verifrt.Assert("C19/list/messengers-exact", verifrt.All(len(r.RemoteTokenMessengers) == 2, a, b))
+		}
+	case 2:
+		d0, d1 := verifrt.NondetU32("d0"), verifrt.NondetU32("d1")
+		t0, t1 := verifrt.NondetBytes("t0", 32), verifrt.NondetBytes("t1", 32)
+		l0, l1 := verifrt.NondetString("l0", 3), verifrt.NondetString("l1", 3)
+		verifrt.Assume(verifrt.Any(d0 != d1, !bytes.Equal(t0, t1)))
+		h.K.SetTokenPair(ctx, types.TokenPair{RemoteDomain: d0, RemoteToken: t0, LocalToken: l0})
+		h.K.SetTokenPair(ctx, types.TokenPair{RemoteDomain: d1, RemoteToken: t1, LocalToken: l1})
+		r, err := h.K.TokenPairs(ctx, &types.QueryAllTokenPairsRequest{Pagination: pr})
+		verifrt.Assert("C19/list/token-pairs-answer", verifrt.All(err == nil, r != nil))
+		if err == nil && r != nil {
+			a, b := false, false
+			for _, x := range r.TokenPairs {
+				a = verifrt.Any(a, verifrt.All(x.RemoteDomain == d0, bytes.Equal(x.RemoteToken, t0), x.LocalToken == l0))
+				b = verifrt.Any(b, verifrt.All(x.RemoteDomain == d1, bytes.Equal(x.RemoteToken, t1), x.LocalToken == l1))
+			}
+			verifrt.Assert("C19/list/token-pairs-exact", verifrt.All(len(r.TokenPairs) == 2, a, b))
+		}
+	case 3:
+		s0, s1 := verifrt.NondetString("s0", 3), verifrt.NondetString("s1", 3)
+		m0, m1 := verifrt.NondetIntNonNil("m0"), verifrt.NondetIntNonNil("m1")
+		verifrt.Assume(s0 != s1)
+		h.K.SetPerMessageBurnLimit(ctx, types.PerMessageBurnLimit{Denom: s0, Amount: m0})
+		h.K.SetPerMessageBurnLimit(ctx, types.PerMessageBurnLimit{Denom: s1, Amount: m1})
+		r, err := h.K.PerMessageBurnLimits(ctx, &types.QueryAllPerMessageBurnLimitsRequest{Pagination: pr})
+		verifrt.Assert("C19/list/burn-limits-answer", verifrt.All(err == nil, r != nil))
+		if err == nil && r != nil {
+			a, b := false, false
+			for _, x := range r.BurnLimits {
+				a = verifrt.Any(a, verifrt.All(x.Denom == s0, verifrt.IntEq(x.Amount, m0)))
+				b = verifrt.Any(b, verifrt.All(x.Denom == s1, verifrt.IntEq(x.Amount, m1)))
+			}
+			verifrt.Assert("C19/list/burn-limits-exact", verifrt.All(len(r.BurnLimits) == 2, a, b))
+		}
+	case 4:
+		s0, s1 := verifrt.NondetString("s0", 3), verifrt.NondetString("s1", 3)
+		verifrt.Assume(s0 != s1)
+		h.K.SetAttester(ctx, types.Attester{Attester: s0})
+		h.K.SetAttester(ctx, types.Attester{Attester: s1})
+		r, err := h.K.Attesters(ctx, &types.QueryAllAttestersRequest{Pagination: pr})
+		verifrt.Assert("C19/list/attesters-answer", verifrt.All(err == nil, r != nil))
+		if err == nil && r != nil {
+			a, b := false, false
+			for _, x := range r.Attesters {
+				a = verifrt.Any(a, x.Attester == s0)
+				b = verifrt.Any(b, x.Attester == s1)
+			}
+			verifrt.Assert("C19/list/attesters-exact", verifrt.All(len(r.Attesters) == 2, a, b))
+		}
+	}
+	verifrt.Cover("listed")
 }
 
 func queryState(maxAtt int) *H {
